@@ -41,6 +41,7 @@ def run(repo: Repo, rep, tier: str):
     rep.func("rv.project.Project.connect")
     connect_rules(repo, rep, "C07", proj, fn)
     operator_rules(repo, rep, "C07")
+    rep.count("files_in_scope", repo.consult_all())
     census_rule(repo, rep, "C07")
 
 
